@@ -77,6 +77,12 @@ impl<'a> TXT<'a> {
                 None => continue,
             };
 
+            // RFC 6763 6.4: a string with a missing key is ignored; this includes the single
+            // empty string that encodes "no attributes"
+            if key.is_empty() {
+                continue;
+            }
+
             let value = match splited.next() {
                 Some(value) if !value.is_empty() => match std::str::from_utf8(value) {
                     Ok(v) => Some(v.to_owned()),
